@@ -161,6 +161,8 @@ def run(ctx):
     r.floor("R05-e", n, 2, "fs::write sites in the emitters")
 
     reset_flag_pairing(ctx, "R05-g")
+    import c13
+    c13.parse_errors_are_errors(ctx, "R05-h")
 
     # R05-f (shared) ----------------------------------------------------------------------------
     import c06
